@@ -27,6 +27,34 @@ func NewProg(p *load.Program) *Prog {
 	pg := &Prog{P: p, Closures: map[*ssa.Function]*ssa.MakeClosure{}, GoSites: map[*ssa.Function][]*ssa.Go{},
 		implMemo: map[*types.Func][]*ssa.Function{}}
 	pg.Funcs = p.SrcFuncs()
+	// the bodies of range-over-func loops are synthetic closures ("range-over-func
+	// yield"); they are source code of their parent and are indexed like any other
+	// function literal
+	{
+		have := map[*ssa.Function]bool{}
+		for _, fn := range pg.Funcs {
+			have[fn] = true
+		}
+		var addAnon func(fn *ssa.Function)
+		addAnon = func(fn *ssa.Function) {
+			for _, a := range fn.AnonFuncs {
+				if !have[a] && a.Blocks != nil {
+					have[a] = true
+					pg.Funcs = append(pg.Funcs, a)
+				}
+				addAnon(a)
+			}
+		}
+		for _, fn := range append([]*ssa.Function(nil), pg.Funcs...) {
+			addAnon(fn)
+		}
+		sort.SliceStable(pg.Funcs, func(i, j int) bool {
+			if pg.Funcs[i].Pos() != pg.Funcs[j].Pos() {
+				return pg.Funcs[i].Pos() < pg.Funcs[j].Pos()
+			}
+			return pg.Funcs[i].String() < pg.Funcs[j].String()
+		})
+	}
 	for _, fn := range pg.Funcs {
 		for _, b := range fn.Blocks {
 			for _, in := range b.Instrs {
